@@ -11,7 +11,7 @@ use tracing::{debug, instrument};
 
 #[instrument(skip_all, name = "trace_create_stream", fields(iggy_user_id = session.get_user_id(), iggy_client_id = session.client_id))]
 pub async fn handle(
-    command: CreateStream,
+    mut command: CreateStream,
     sender: &mut SenderKind,
     session: &Session,
     system: &SharedSystem,
@@ -29,6 +29,8 @@ pub async fn handle(
                     stream_id
                 )
             })?;
+    // Journal the ID the server has assigned, so that replay cannot pick a different one.
+    command.stream_id = Some(stream.stream_id);
     let response = mapper::map_stream(stream);
 
     let system = system.downgrade();
